@@ -213,6 +213,16 @@ def run(ctx):
                     exp = reach(g, [0], plus)
                 vq.append(q)
                 vmeta.append((encn, g, q, exp, form))
+    # the node at the bottom of a stack deeper than the cached type profile (four codes), nodes of different types
+    MIXED = ['1', '"x"', '[1]', 'DW_AT_name', '2']
+    for g in vgraphs:
+        for fill in ("11 12 13 14", "11 12 13 14 15 16", '"a" 12 [] 14 15'):
+            names = " ".join("F%d" % k for k in range(len(fill.split())))
+            body = "(%s)" % ", ".join("?(N %s ?eq) %s" % (MIXED[a], MIXED[b]) for a in sorted(g) for b in g[a])
+            for form, plus in (("%s %s (|N %s| %s %s)*", False), ("%s %s (|N %s| %s %s)+", True)):
+                q = form % (MIXED[0], fill, names, body, names)
+                vq.append(q)
+                vmeta.append(("mixed-types-below", g, q, reach(g, [0], plus), "plain"))
     for (encn, g, q, exp, form), r in zip(vmeta, zw.run_cases([zw.enc(q, t=3, max=400) for q in vq])):
         evaluations += 1
         if r.crash or r.hard:
